@@ -47,6 +47,11 @@ def uni_config():
                                'bounded': st.sampled_from([None, 'BOUNDED', 'UNBOUNDED', 'SEMI_BOUNDED'])}),
         st.fixed_dictionaries({'mode': st.just('candidates'), 'cands': st.lists(cand_entry(), min_size=1, max_size=4)}),
         st.fixed_dictionaries({'mode': st.just('candidates'), 'cands': st.lists(cand_entry(), min_size=2, max_size=4)}),
+        # the same class listed several times with different constructor arguments: every entry is a candidate of its own
+        st.fixed_dictionaries({'mode': st.just('candidates'), 'cands': st.lists(
+            st.fixed_dictionaries({'form': st.just('instance'), 'name': st.just('GaussianKDE'),
+                                   'opts': st.fixed_dictionaries({'bw_method': st.sampled_from([3.0, 1.0, 0.3, 0.05, 'silverman'])})}),
+            min_size=2, max_size=3, unique_by=lambda e: str(e['opts']['bw_method']))}),
     )
 
 
@@ -135,6 +140,10 @@ def oracle_selection(case):
     require(mine, 'Univariate selected %s, which is not a fittable candidate (%r)' % (sel, table), tag='selected-unfittable')
     require(min(mine) <= best + 1e-12, 'Univariate selected %s (KS %.6f) but %s has KS %.6f; table %r'
             % (sel, min(mine), min(fittable, key=lambda t: t[1])[0], best, table), tag='not-best-ks')
+    # the same statement on the fitted wrapper itself (two candidates may share their class and differ in their options)
+    ks_sel = float(stats.kstest(x, u.cdf)[0])
+    require(ks_sel <= best + 1e-9, 'the model selected by Univariate (%s) has KS %.6f but candidate %s reaches %.6f; table %r'
+            % (sel, ks_sel, min(fittable, key=lambda t: t[1])[0], best, table), tag='not-best-ks')
     # the fitted wrapper behaves as the selected family fitted on the data
     fresh = M.uni_class(sel)
     idx = [i for i, c in enumerate(u.candidates) if cand_name(c) == sel]
